@@ -652,7 +652,7 @@ pub fn c12(ctx: &mut Ctx) {
         }
     }
     // sampled up to HSA 126 and gap factor 100
-    let n = ctx.n(600, 60_000, 1);
+    let n = ctx.n(2400, 300_000, 1);
     let mut rng = Rng::derive(seed, "c12sample", ctx.shard);
     for k in 0..n {
         let i = 5_000_000 + ctx.shard + k * ctx.nshards;
@@ -676,7 +676,7 @@ pub fn c12(ctx: &mut Ctx) {
         ctx.rep.cur_case = format!("c12g {} {} {} {} {} {} seed {}", i, ts, ns, hsa, gf, vc, seed);
         gap_case(&mut ctx.rep, seed, i, ts, ns, hsa, gf, variant, false);
     }
-    let n = ctx.n(6000, 600_000, 3);
+    let n = ctx.n(24_000, 3_000_000, 3);
     for k in 0..n {
         let i = ctx.shard + k * ctx.nshards;
         ctx.rep.cur_case = format!("c12s {} seed {}", i, seed);
